@@ -24,12 +24,15 @@ Oracle, evaluated in every state: every request head that appears in the bytes o
 upstream socket (read by http1ref, identified by its /r<k> path) must sit on a socket
 whose peer address, plaintext/TLS nature and tunnel target equal the recorded destination
 of request k; the Server object the flow ended up with must carry the same address / tls /
-via / transport; a Server object whose connect failed never carries a request.
+via / transport; a Server object whose connect failed never carries a request.  After every
+action: a request parked in HttpLayer.waiting_for_establishment waits on a connection that
+already equals its recorded destination (it will be written there once the connect completes).
 """
 from __future__ import annotations
 
 from mitmproxy import http
 from mitmproxy.connection import ConnectionState
+from mitmproxy.connection import Server
 from mitmproxy.proxy.layers.http import HttpLayer
 
 from vmc import explore, par
@@ -65,10 +68,11 @@ VARIANTS = {
     "a80>host": ("http", "a.test", 80, "host"),
     "a80>https": ("http", "a.test", 80, "https"),
     "a80>via": ("http", "a.test", 80, "via"),
+    "a80>newconn": ("http", "a.test", 80, "newconn"),
     "b80>a": ("http", "b.test", 80, "host_a"),
     "a80>host/stream": ("http", "a.test", 80, "stream_host"),
 }
-QUICK_VARIANTS = ["a80", "a80s", "a80>port", "a80>host", "a80>via", "a80>host/stream"]
+QUICK_VARIANTS = ["a80", "a80s", "a80>port", "a80>host", "a80>newconn", "a80>host/stream"]
 
 # ---------------------------------------------------------------------------------------------- instrumentation (read-only)
 _LAYERS: list = []
@@ -135,6 +139,11 @@ class Sys:
             elif rewrite == "https":
                 r.scheme = "https"
             elif rewrite == "via":
+                data.server_conn.via = ("http", Q)
+            elif rewrite == "newconn":
+                # the documented way to send one flow through another upstream proxy when the current connection
+                # object may already be open (examples/contrib/change_upstream_proxy.py): replace the object
+                data.server_conn = Server(address=data.server_conn.address)
                 data.server_conn.via = ("http", Q)
             if streamed:
                 r.stream = True
@@ -393,6 +402,31 @@ def judge(s: Sys, hist, t: Tally):
     t.judge("no_internal_error", not crashes, dict(base, variant=s.variants[-1] if s.variants else "-", reused=False), case, "no exception inside the proxy core", crashes[:2])
 
 
+def judge_waiting(s: Sys, t: Tally):
+    """transient invariant, judged after every action: a request that waits for a connection which is still being
+    established (HttpLayer.waiting_for_establishment) will be written to it, so that connection must already equal the
+    request's destination - compared here with the destination the addon recorded, not with the command's own fields"""
+    layer = s.layer
+    if layer is None:
+        return
+    for conn, cmds in list(layer.waiting_for_establishment.items()):
+        for cmd in cmds:
+            stream = layer.command_sources.get(cmd)
+            flow = getattr(stream, "flow", None)
+            if flow is None or flow.request is None:
+                continue
+            k = Sys.k_of(flow.request.path)
+            dest = s.intended.get(k)
+            if dest is None:
+                continue
+            scheme, host, port, via = dest
+            got = {"address": list(conn.address) if conn.address else None, "tls": bool(conn.tls), "via": [conn.via[0], list(conn.via[1])] if conn.via else None, "transport": conn.transport_protocol}
+            want = {"address": [host, port], "tls": scheme == "https", "via": [via[0], list(via[1])] if via else None, "transport": "tcp"}
+            feats = {"proto": s.proto, "mode": s.mode, "prior_fail": s.had_fail, "variant": s.variants[k], "reused": len(cmds) > 1}
+            case = {"proto": s.proto, "mode": s.mode, "hist": [list(a) for a in s.hist]}
+            t.judge("waits_only_on_matching_conn", got == want, feats, case, want, got)
+
+
 # ---------------------------------------------------------------------------------------------- executor for vmc.explore._dev_rec
 class Exec:
     def __init__(self, proto, mode, variants, max_req):
@@ -420,6 +454,7 @@ class Exec:
                 s.apply(a)
                 t.transitions += 1
                 t.state(s.fingerprint())
+                judge_waiting(s, t)
                 if verbose:
                     print("after", a, "sockets", [(e.address, e.state, e.w.data[:100]) for e in s.w.servers])
             else:
@@ -447,14 +482,9 @@ CONFIGS = [("h1", "regular"), ("h1", "upstream"), ("h2", "regular"), ("h2", "ups
 
 
 def pool_size():
-    """scheduling only: on an oversubscribed machine a small forked pool was measured to be faster than a large one"""
-    import os
-
-    try:
-        load = os.getloadavg()[0]
-    except OSError:
-        load = 0.0
-    return par.NPROC if load < par.NPROC else max(2, par.NPROC // 4)
+    """scheduling only: on the build machine (a VM with very expensive page faults after fork) a small forked pool was
+    measured to be faster than a large one, loaded or not"""
+    return min(par.NPROC, 6)
 
 
 def run(ctx):
@@ -501,6 +531,7 @@ def replay(case, t, verbose=False):
         hist = [tuple(a) for a in case["hist"]]
         for a in hist:
             s.apply(a)
+            judge_waiting(s, t)
             if verbose:
                 print("after", a, "sockets", [(e.address, e.state, e.w.data[:120]) for e in s.w.servers])
         judge(s, hist, t)
